@@ -27,7 +27,7 @@ RULE = ('cases are accepted route configurations (as C01) crossed with two reque
         'PYTHONHASHSEED')
 ASSUMPTIONS = ['one name is never defined by both an application-level and a route-level resource here (C10 covers precedence)',
                'which of several applications is "the application" for an embedded route: the serving (outermost) one']
-REQUIRED_REACH = ['same-unique-type-on-several-levels', 'nonunique-type-on-two-levels', 'decoy-routes-passed-over', 'sibling-routes-with-own-middlewares', 'sibling-middleware-provides-a-name-the-route-mentions', 'prefix-bindings-injected', 'constructed', 'requests-on-accepted', 'src:default:def', 'src:default:kwdef', 'src:resource:req',
+REQUIRED_REACH = ['same-unique-type-on-several-levels', 'nonunique-type-on-two-levels', 'decoy-routes-passed-over', 'sibling-routes-with-own-middlewares', 'functions-with-var-keyword-parameters-called', 'innermost-application-also-mounted-elsewhere', 'sibling-middleware-provides-a-name-the-route-mentions', 'prefix-bindings-injected', 'constructed', 'requests-on-accepted', 'src:default:def', 'src:default:kwdef', 'src:resource:req',
                   'src:resource:kwreq', 'src:provided:req', 'src:provided:kwdef', 'src:request:req', 'src:application:req',
                   'src:dispatch_state:req', 'src:ctx:req', 'src:value:req', 'src:route:req', 'src:next:req']
 HASHSEEDS_Q = [0, 1, 2, 3, 4, 5, 6, 7]
